@@ -1,3 +1,4 @@
 pub mod attr;
+pub mod css;
 pub mod h5;
 pub mod tree;
